@@ -3,8 +3,14 @@ package harness
 // C07 - file DAGs are byte-identical to the reference balanced importer's (raw leaves, CIDv1).
 
 import (
+	"bytes"
 	"fmt"
+	"io"
+	"os"
 	"testing"
+
+	"github.com/ipfs/go-cid"
+	"github.com/ipld/go-ipld-prime/datamodel"
 
 	"pgregory.net/rapid"
 )
@@ -138,4 +144,86 @@ func TestC07_R_ChunkSizeLimits(t *testing.T) {
 	if err := c07Compare(lcgBytes(1048576+9, 3, 0), "rabin-262144-524288-1048576", 174); err != nil {
 		t.Fatalf("C07 chunk size limits: %v", err)
 	}
+}
+
+const c07SourceRule = "case = content x source kind in {*os.File positioned at a drawn offset, io.SectionReader partly read, bytes.Reader partly read, the library's own AsLargeBytes reader after a Seek, a plain non-seekable reader} x chunker in {default \"\", size-K}; " +
+	"the builder must import exactly the bytes the reader has left; oracle = reference importer over those remaining bytes (CID and size); non-trivial = seekable source with a non-zero position; distinct by (source, chunker class, position class)"
+
+// TestC07_P_PositionedSources: BuildUnixFSFile takes an io.Reader - what it imports is what that reader still has to give.
+func TestC07_P_PositionedSources(t *testing.T) {
+	ev := newEvid(t, c07SourceRule)
+	rapid.Check(t, func(t *rapid.T) {
+		n := rapid.IntRange(0, 3000).Draw(t, "len")
+		data := lcgBytes(n, rapid.Byte().Draw(t, "fill"), 0)
+		pos := 0
+		if n > 0 {
+			pos = rapid.IntRange(0, n).Draw(t, "pos")
+		}
+		chunker := rapid.SampledFrom([]string{"", "default", "size-64", "size-1000"}).Draw(t, "chunker")
+		src := rapid.SampledFrom([]string{"os.File", "SectionReader", "bytes.Reader", "AsLargeBytes", "plain"}).Draw(t, "source")
+		var r io.Reader
+		cleanup := func() {}
+		switch src {
+		case "os.File":
+			f, err := os.CreateTemp("", "verif-c07-")
+			if err != nil {
+				t.Fatal(err)
+			}
+			cleanup = func() { f.Close(); os.Remove(f.Name()) }
+			if _, err := f.Write(data); err != nil {
+				t.Fatal(err)
+			}
+			if _, err := f.Seek(int64(pos), io.SeekStart); err != nil {
+				t.Fatal(err)
+			}
+			r = f
+		case "SectionReader":
+			sr := io.NewSectionReader(bytes.NewReader(data), 0, int64(n))
+			_, _ = io.CopyN(io.Discard, sr, int64(pos))
+			r = sr
+		case "bytes.Reader":
+			br := bytes.NewReader(data)
+			_, _ = io.CopyN(io.Discard, br, int64(pos))
+			r = br
+		case "AsLargeBytes":
+			st0 := NewStore()
+			root0, _, err := buildFile(st0, data, "size-100", 3)
+			if err != nil {
+				t.Fatal(err)
+			}
+			node, err := loadReified(st0.LinkSystem(), root0, "unixfs")
+			if err != nil {
+				t.Fatal(err)
+			}
+			rs, err := node.(datamodel.LargeBytesNode).AsLargeBytes()
+			if err != nil {
+				t.Fatal(err)
+			}
+			if _, err := rs.Seek(int64(pos), io.SeekStart); err != nil {
+				t.Fatal(err)
+			}
+			r = rs
+		default:
+			r = plainReader{bytes.NewReader(data[pos:])}
+		}
+		defer cleanup()
+		rest := data[pos:]
+		st := NewStore()
+		var got cid.Cid
+		var gsz uint64
+		var err error
+		must(t, "BuildUnixFSFile", func() { got, gsz, err = buildFileR(st.LinkSystem(), r, chunker, 174) })
+		if err != nil {
+			t.Fatalf("C07 source %s: %v", src, err)
+		}
+		want, wsz, err := refImportFile(NewStore(), rest, refFileOpts{Chunker: chunker, Width: 174, RawLeaves: true, CidV1: true})
+		if err != nil {
+			t.Fatalf("reference: %v", err)
+		}
+		if got != want || gsz != wsz {
+			t.Fatalf("C07: source %s holding %d bytes, positioned at %d, chunker %q: builder %s/%d, reference over the remaining %d bytes %s/%d", src, n, pos, chunker, got, gsz, len(rest), want, wsz)
+		}
+		ev.Case(fmt.Sprintf("%s %q pos=%s/%s", src, chunker, bucket(pos), bucket(n)), src != "plain" && pos > 0, "source:"+src, "chunker:"+chunker)
+		ev.Sample(map[string]any{"source": src, "len": n, "pos": pos, "chunker": chunker})
+	})
 }
